@@ -15,6 +15,8 @@ public:
     int which();
     int which() const;
     bool same(const Shape &other) const;
+    int touch(Shape &other) const;
+    int touch(const Shape &other) const;
     Shape * clone() const;
     Shape & self();
     void setColor(Color c);
